@@ -73,8 +73,10 @@ Logged ==
   \/ Is("ExpB") /\ Ln.x = Len(xh) + 1 /\ DExpectBegin(Ln.d, Ln.b, Ln.ty, Ln.inc, Ln.exc, Ln.tmo >= 0)
   \/ Is("ExpE") /\ task[DT(Ln.d)].e = Ln.x /\ Ln.err = "" /\ DExpectEnd(Ln.d, FALSE) /\ xh[Ln.x].e = Ln.e
   \/ Is("ExpE") /\ task[DT(Ln.d)].e = Ln.x /\ Ln.err = "Timeout" /\ DExpectEnd(Ln.d, TRUE)
-  \/ Is("StopB") /\ Ln.tmo <= 0 /\ DStopBegin(Ln.d, Ln.b)
-  \/ Is("StopE") /\ task[DT(Ln.d)].b = Ln.b /\ (DStopGo(Ln.d) \/ DStopWaitEnd(Ln.d)) /\ task'[DT(Ln.d)].pc = "run"
+  \/ Is("StopB") /\ Ln.d >= 1000 /\ HStopBegin(Ln.d - 1000, Ln.b)
+  \/ Is("StopE") /\ Ln.d >= 1000 /\ (HStopWaitEnd(Ln.d - 1000) \/ (HStopGo(Ln.d - 1000) /\ task'[HT(Ln.d - 1000)].pc = "ops"))
+  \/ Is("StopB") /\ Ln.d < 1000 /\ Ln.tmo <= 0 /\ DStopBegin(Ln.d, Ln.b)
+  \/ Is("StopE") /\ Ln.d < 1000 /\ task[DT(Ln.d)].b = Ln.b /\ (DStopGo(Ln.d) \/ DStopWaitEnd(Ln.d)) /\ task'[DT(Ln.d)].pc = "run"
   \/ Is("CancelRL") /\ DCancelRL(Ln.d, Ln.b)
   \/ (Is("Init") \/ Is("End") \/ Is("Acc")) /\ UNCHANGED vars
 
@@ -82,6 +84,7 @@ Counted ==   \* silent steps that change the state
   \/ \E b \in B : RLStart(b) \/ RLTake(b) \/ RLPollIdle(b) \/ (RLBegin(b) /\ task'[RL(b)].pc = "lockwait")
   \/ \E b \in B : RLDrop(b) \/ RLPollExit(b) \/ RLDie(b) \/ RLShutExit(b) \/ RLDieLocked(b) \/ RLTakeDying(b)
   \/ \E i \in 1..NDrv : (DStopGo(i) /\ task'[DT(i)].pc = "stop_wait") \/ DExpectGo(i)
+  \/ \E a \in 1..MaxAct : HStopGo(a) /\ task'[HT(a)].pc = "hstop_wait"
   \/ \E t \in Tasks : task[t].todo # <<>> /\ Head(task[t].todo).kind = "exp" /\ OwnerNext(t)
   \/ \E t \in Tasks : (ProcSelect(t) /\ task'[t].pc = "pb") \/ (OwnerNext(t) /\ task'[t].pc = "waith") \/ OwnerResume(t) \/ OwnerEpilogue(t) \/ OwnerAbort(t) \/ FwdReturn(t) \/ SyncReturn(t) \/ ParStart(t) \/ TimeoutFire(t) \/ WalBegin(t) \/ WalOpen(t, FALSE) \/ WalClose(t)
   \/ \E k \in 1..MaxAct : XStart(k) \/ XEnd(k) \/ XAbandon(k)
